@@ -291,11 +291,11 @@ theorem dstep_refines (ds : DblSem) {s : DState} {σ σ' : Store} (hg : DGood s 
                 | lapp src => simp [mutOk, hcon] at hm; exact hm hin
                 | lpre src => simp [mutOk, hcon] at hm; exact hm hin
                 | aapp src => simp [mutOk, hcon] at hm; exact hm hin
-                | lrem i => exact hls
-                | arem i => exact hls
-                | mput k src => exact hls
-                | mrem k => exact hls
-                | sapp t => exact hls
+                | lrem i => simp [LeafS.vars] at hin
+                | arem i => simp [LeafS.vars] at hin
+                | mput k src => simp [mutOk, hcon] at hm; exact hm hin
+                | mrem k => simp [LeafS.vars] at hin
+                | sapp t => simp [LeafS.vars] at hin
             have hsrc : ∀ w ∈ lf.vars, s.vars w = upd s.vars v .null w ∧ w < nslots := by
               intro w hw
               have : w ≠ v := by intro e; subst e; exact hnv hw
